@@ -44,7 +44,7 @@ VALID = [q.name for q in quant.ALL] + ["overlap_integral_asymmetric", "overlap_i
                                        "parse_nwchem", "parse_gbs", "evaluate_density_using_evaluated_orbs",
                                        "evaluate_general_kinetic_energy_density", "evaluate_deriv_reduced_density_matrix",
                                        "overlap_integral[tol_screen=0]", "iodata:0:eval", "iodata:1:eval", "iodata:0:overlap", "iodata:1:overlap", "iodata:0:deriv",
-                                       "iodata:1:deriv"]
+                                       "iodata:1:deriv", "electrostatic_potential[threshold,grid]"]
 INVALID = ["points-wrong-shape", "points-object-dtype", "charges-wrong-length", "charges-non-numeric", "esp-non-numeric-charges",
            "esp-non-numeric-coords", "esp-negative-threshold", "esp-gamma-wrong-size", "eri-bad-notation", "deriv-bad-type",
            "deriv-negative-order", "deriv-float-order", "density-nonsymmetric", "density-wrong-size", "moment-float-orders",
@@ -168,6 +168,15 @@ class World:
             fn = {"eval": lambda: evaluate_basis(shells_io, env["points"]), "overlap": lambda: overlap_integral(shells_io),
                   "deriv": lambda: evaluate_deriv_basis(shells_io, env["points"], env["deriv_order"])}[name[9:]]
             return fn()
+        if name == "electrostatic_potential[threshold,grid]":
+            # a grid of 3003 points, three of them 0.01 bohr from the first nucleus (inside the threshold, not on the nucleus):
+            # the nucleus is left out for those points, and the numbers must not depend on what the process did before
+            nuc = np.asarray(env["nuc_coords"], dtype=float).reshape(-1, 3)
+            k = np.arange(3000, dtype=float)
+            grid = np.stack([0.37 * np.sin(0.11 * k) * (1 + k / 900.0), 0.41 * np.cos(0.07 * k) * (1 + k / 700.0), 0.002 * k - 3.0], axis=1)
+            near = nuc[0][None, :] + 0.01 * np.eye(3)
+            pts = np.concatenate([near, grid + np.asarray(env["points"], dtype=float)[0][None, :]], axis=0)
+            return electrostatic_potential(shells, env["gamma"], pts, nuc, np.asarray(env["nuc_charges"], dtype=float), threshold_dist=0.05)
         if name == "evaluate_deriv_reduced_density_matrix":
             return gd.evaluate_deriv_reduced_density_matrix(env["deriv_order"], np.array([1, 0, 0]), env["gamma"], shells, env["points"])
         raise KeyError(name)
